@@ -462,7 +462,7 @@ func (g *gen) truncOffsets(c *Case, allUpTo, samples int) []int {
 
 // RunC06 is the C06 check.
 func RunC06(r *mon.Run) {
-	r.Rule = "one evaluation = one stream executed against the real mux with a recording handler: (transport x codec x shape) x message sequence (length 0-6, empty / tiny / PRF payload / at-limit messages, HttpBody uploads around multiples of the chunk limit) x read schedule (every partition of short bodies, one read, 1-byte reads, random partitions; in-process via a scripted body reader in both end-of-stream styles, on sockets via Content-Length / chunked / scripted h2 DATA frames / fragmenting listener) x truncation point (every offset of short bodies, framing offsets of long ones; plain end, transport error, END_STREAM, RST_STREAM, connection close). A stream is counted non-trivial when its body is fragmented, truncated, served over a socket or carries several replies; distinct = (lane, transport, codec, shape, #messages capped, schedule class, end style, cut class, outcome)"
+	r.Rule = "one evaluation = one stream executed against the real mux with a recording handler: (transport x codec x shape) x message sequence (length 0-6, empty / tiny / PRF payload / at-limit messages, HttpBody uploads around multiples of the chunk limit) x read schedule (every partition of short bodies, one read, 1-byte reads, random partitions; in-process via a scripted body reader in both end-of-stream styles, on sockets via Content-Length / chunked / scripted h2 DATA frames / fragmenting listener) x truncation point (every offset of short bodies, framing offsets of long ones; plain end, transport error, END_STREAM, RST_STREAM, connection close). x codec pair of HTTP-transcoded streams (request Content-Type and Accept naming the same / different registered codecs, on methods whose request and reply types are the same / differ; replies are decoded with the codec the response Content-Type announces). A stream is counted non-trivial when its body is fragmented, truncated, served over a socket or carries several replies; distinct = (lane, transport, codec, shape, #messages capped, schedule class, end style, cut class, outcome)"
 	r.Floor = 60
 	limits := []int{7, 64, 100, 128, 1000}
 	e, err := newEnv(r, limits)
@@ -484,6 +484,7 @@ func RunC06(r *mon.Run) {
 	g.timed("laneBodyContentTypes", func() { g.laneBodyContentTypes() })
 	g.timed("laneEncodedDelivery", func() { g.laneEncodedDelivery() })
 	g.timed("laneAssets", func() { g.laneAssets("inproc") })
+	g.timed("laneCodecPairs", func() { g.laneCodecPairs() })
 	g.timed("laneProxied", func() { g.laneProxied() })
 	g.timed("lanePoisonedPool", func() { g.lanePoisonedPool() })
 	g.timed("laneReal", func() { g.laneReal() })
